@@ -287,6 +287,33 @@ def run(ctx):
                   f"plan_state.{attr} is built as `{A.unparse(vals[0]) if vals else '?'}`, not a reference-counting set, while ops add / remove it once per op: {why}")
     ctx.floor("R5", 2)
 
+    # ---- R6 the table primitives the ops are built on remove exactly the object they were given -------------------------------
+    slot_primitive_exact(ctx, "R6")
+    ctx.floor("R6", 4)
+
+
+def slot_primitive_exact(ctx, rule):
+    """remove_slotting / remove_limiter: what is written back is the previous list minus the argument *object* — packages compare
+    by category/package/version only (two repositories' copies are equal) and atoms by value, so any looser predicate also drops
+    entries another op put there, and a rollback no longer restores them."""
+    P = ctx.program
+    for meth in ("remove_slotting", "remove_limiter"):
+        fn = P.func("pkgcore.resolver.pigeonholes", f"PigeonHoledSlots.{meth}")
+        obj = fn.params()[1]
+        comps = [n for n in A.body_walk(fn.node) if isinstance(n, ast.ListComp) and len(n.generators) == 1 and isinstance(n.generators[0].target, ast.Name)
+                 and isinstance(n.elt, ast.Name) and n.elt.id == n.generators[0].target.id]
+        stored = [n for n in A.body_walk(fn.node) if isinstance(n, ast.Assign) and any(isinstance(t, ast.Subscript) and isinstance(t.value, ast.Attribute) for t in n.targets)]
+        ctx.require(len(comps) == 1 and stored, f"{meth}: the filtered copy of the table entry / its store were not found")
+        c = comps[0]; x = c.generators[0].target.id
+        tests = c.generators[0].ifs
+        ok = len(tests) == 1 and M.pat(f"{x} is not {obj}").matches(tests[0]) is not None
+        ctx.check(rule, fn, ok, f"{meth}:identity-filter", f"{meth} keeps every entry except the very object `{obj}` it was given",
+                  f"PigeonHoledSlots.{meth} filters the table entry with `{' and '.join(A.unparse(t) for t in tests) or '<nothing>'}` instead of `{x} is not {obj}`: entries that merely compare equal to / share a slot with the argument are dropped as well, so reverting one planner op silently removes another op's entry and rollback no longer restores the earlier state", node=c)
+        kept = c and [t for st in stored for t in [st.value] if isinstance(t, ast.Name)]
+        lhs = [st for st in A.body_walk(fn.node) if isinstance(st, ast.Assign) and st.value is c]
+        nm = lhs[0].targets[0].id if lhs and isinstance(lhs[0].targets[0], ast.Name) else None
+        ctx.check(rule, fn, nm is not None and any(isinstance(st.value, ast.Name) and st.value.id == nm for st in stored), f"{meth}:stores-filtered-copy", f"{meth} writes the filtered copy back to the table")
+
 
 MUTANTS = [
     {"name": "refcount-only-first", "file": "src/pkgcore/resolver/state.py", "old": "            l = plan.state.add_limiter(self.blocker, self.key)\n        else:\n            l = []\n        plan.rev_blockers.setdefault(self.choices, []).append((self.blocker, self.key))\n        plan.blockers_refcnt.add(self.blocker)\n        return l", "new": "            l = plan.state.add_limiter(self.blocker, self.key)\n            plan.blockers_refcnt.add(self.blocker)\n        else:\n            l = []\n        plan.rev_blockers.setdefault(self.choices, []).append((self.blocker, self.key))\n        return l", "rule": "R1"},
